@@ -91,13 +91,20 @@ def compare(run, cname, path, text, impl_defs, impl_usages, same_model, cases, f
                     report(f"fixture {k}: cleaned docstring recorded {g['doc']!r}, inspect.cleandoc gives {w['doc']!r}")
     # usages as a multiset of (name, line); spans are C15's business
     from collections import Counter
-    wu = Counter()
-    for u in sp["usages"]:
-        wu[(u["name"], u["line"])] += 1
     gu = Counter()
     for u in impl_usages:
         parts = u.rsplit(":", 3)
         gu[(parts[3], int(parts[1]))] += 1
+    wu = Counter()
+    for u in sp["usages"]:
+        ln = u["line"]
+        if u.get("span") is None and "lit" in u and u["lit"][0] != u["lit"][2] and (u["name"], ln) not in gu:
+            # a literal over several lines whose source does not spell the name through a
+            # transparent token: the usage belongs to the literal, on whichever of its lines
+            alt = [l for (nm, l) in gu if nm == u["name"] and u["lit"][0] <= l <= u["lit"][2]]
+            if alt:
+                ln = alt[0]
+        wu[(u["name"], ln)] += 1
     if wu != gu:
         n += 1
         extra = gu - wu
